@@ -12,3 +12,63 @@ Definition dim_one : dim := repeat 0%Q 7.                 (* dimensionless *)
 Definition dim_mul (a b : dim) : dim := zipw Qplus a b.   (* unit of a product: exponents add *)
 Definition dim_div (a b : dim) : dim := zipw Qminus a b.  (* unit of a quotient *)
 Definition dim_pow (r : Q) (a : dim) : dim := map (fun q => Qmult q r) a.   (* unit of x^r *)
+
+(* ---------------------------------------------------------------------------------------------------------------
+   Extension: tensorial objects of quantities, math functions, element access.
+   The language of the generated programs (syntax and shapes) and the dimension `dim_of` of an expression computed
+   with plain rational arithmetic.  A plain number is dimensionless.  `None` = the expression is not homogeneous
+   (or the shapes do not fit). *)
+Inductive shape := Sc | Vec | Sym | T4.      (* scalar | tvector<N> | stensor<N> | st2tost2<N> *)
+Definition shape_same (a b : shape) : option shape :=
+  match a, b with Sc, Sc => Some Sc | Vec, Vec => Some Vec | Sym, Sym => Some Sym | T4, T4 => Some T4 | _, _ => None end.
+Definition shape_mul (a b : shape) : option shape :=      (* scalar * object, object * scalar, st2tost2 * stensor, st2tost2 * st2tost2 *)
+  match a, b with Sc, s => Some s | s, Sc => Some s | T4, Sym => Some Sym | T4, T4 => Some T4 | _, _ => None end.
+Definition shape_div (a b : shape) : option shape := match b with Sc => Some a | _ => None end.
+Definition shape_inner (a b : shape) : option shape := match a, b with Sym, Sym | Vec, Vec => Some Sc | _, _ => None end.
+Definition shape_dyad (a b : shape) : option shape := match a, b with Sym, Sym => Some T4 | _, _ => None end.
+
+Inductive xexpr :=
+| XVar (i : nat) | XLit (k : nat)
+| XAdd (a b : xexpr) | XSub (a b : xexpr) | XMul (a b : xexpr) | XDiv (a b : xexpr) | XNeg (a : xexpr)
+| XPow (n : Z) (d : positive) (a : xexpr)
+| XSqrt (a : xexpr) | XCbrt (a : xexpr) | XAbs (a : xexpr)
+| XFn (k : nat) (a : xexpr)                (* exp, log, sin, cos, tanh, std::sqrt, std::cbrt: dimensionless arguments only *)
+| XInner (a b : xexpr)                     (* a | b *)
+| XDyad (a b : xexpr)                      (* a ^ b *)
+| XElem (a : xexpr).                       (* a(i), a(i,j) *)
+
+Fixpoint dim_eqb (a b : dim) : bool :=
+  match a, b with
+  | [], [] => true
+  | x :: a', y :: b' => Qeq_bool x y && dim_eqb a' b'
+  | _, _ => false
+  end.
+Definition sdim := (shape * dim)%type.
+Definition sbin (fs : shape -> shape -> option shape) (fd : dim -> dim -> option dim) (x y : option sdim) : option sdim :=
+  match x, y with
+  | Some (s1, d1), Some (s2, d2) => match fs s1 s2, fd d1 d2 with Some s, Some d => Some (s, d) | _, _ => None end
+  | _, _ => None
+  end.
+Definition ssc1 (f : dim -> option dim) (x : option sdim) : option sdim :=
+  match x with Some (Sc, d) => option_map (pair Sc) (f d) | _ => None end.
+Definition d_same (a b : dim) : option dim := if dim_eqb a b then Some a else None.     (* sums: same dimension *)
+Definition d_mul (a b : dim) : option dim := Some (dim_mul a b).
+Definition d_div (a b : dim) : option dim := Some (dim_div a b).
+Definition d_fn (a : dim) : option dim := if dim_eqb a dim_one then Some dim_one else None.
+Fixpoint dim_of (G : list sdim) (e : xexpr) : option sdim :=
+  match e with
+  | XVar i => nth_error G i
+  | XLit _ => Some (Sc, dim_one)
+  | XAdd a b | XSub a b => sbin shape_same d_same (dim_of G a) (dim_of G b)
+  | XMul a b => sbin shape_mul d_mul (dim_of G a) (dim_of G b)
+  | XDiv a b => sbin shape_div d_div (dim_of G a) (dim_of G b)
+  | XNeg a => dim_of G a
+  | XPow n d a => ssc1 (fun x => Some (dim_pow (n # d) x)) (dim_of G a)
+  | XSqrt a => ssc1 (fun x => Some (dim_pow (1 # 2) x)) (dim_of G a)
+  | XCbrt a => ssc1 (fun x => Some (dim_pow (1 # 3) x)) (dim_of G a)
+  | XAbs a => ssc1 Some (dim_of G a)
+  | XFn _ a => ssc1 d_fn (dim_of G a)
+  | XInner a b => sbin shape_inner d_mul (dim_of G a) (dim_of G b)
+  | XDyad a b => sbin shape_dyad d_mul (dim_of G a) (dim_of G b)
+  | XElem a => match dim_of G a with Some (Sc, _) => None | Some (_, d) => Some (Sc, d) | None => None end
+  end.
